@@ -40,7 +40,7 @@ def ref_cells_in_raster_order(tree):
     return out
 
 
-def check_doc(text, scales=(1, 2, Fraction(3, 2), 1.5, 1.0, 0.5), descs=None):
+def check_doc(text, scales=(1, 2, Fraction(3, 2), 1.5, 1.0, 0.5, 20, Fraction(5, 2)), descs=None):
     out = []
     try:
         mr = M.compile_markdown(text)
@@ -156,8 +156,17 @@ REUSED_NAME_DOC = ("# Onion burgers for 2\n\n    3 onions\n    salad = toss(1/4 
                    "    burgers = stack(2 buns, 2 patties, 2/3 of the onions)\n    serve(burgers, salad, remaining onions)\n")
 
 
+# long descriptive names that differ only near their end, and names whose scaled number gains a digit at larger scales
+LONG_NAMES_DOC = ("# Pasta bake for 2\n\n    slow roasted tomato and red pepper sauce for the pasta = roast(4 tomatoes, 2 peppers)\n"
+                  "    slow roasted tomato and red pepper sauce for the topping = roast(2 tomatoes, 1 pepper)\n"
+                  "    tray of {6} chocolate chip cookies batch 1, tray of {6} chocolate chip cookies batch 2 = bake(dough)\n"
+                  "    layer(1/2 of the slow roasted tomato and red pepper sauce for the pasta, 1/2 of the slow roasted tomato and red pepper sauce for the topping)\n"
+                  "    serve(rest of the slow roasted tomato and red pepper sauce for the pasta, rest of the slow roasted tomato and red pepper sauce for the topping,\n"
+                  "          tray of {6} chocolate chip cookies batch 1, tray of {6} chocolate chip cookies batch 2)\n")
+
+
 def oracle(run):
-    docs = [(COLLISION_DOC, None), (ACCENT_DOC, None), (NUMBERED_NAME_DOC, None), (TWIN_RECIPES_DOC, None), (REUSED_NAME_DOC, None)] + [(d.text(), d.descs) for d in c13.gen_cases(run, run.budget(150, 4000))]
+    docs = [(LONG_NAMES_DOC, None), (COLLISION_DOC, None), (ACCENT_DOC, None), (NUMBERED_NAME_DOC, None), (TWIN_RECIPES_DOC, None), (REUSED_NAME_DOC, None)] + [(d.text(), d.descs) for d in c13.gen_cases(run, run.budget(150, 4000))]
     for text, descs in docs:
         run.case(("oracle", text), "rg-reference" in text or True, kind="document")
         seen = set()
